@@ -933,8 +933,24 @@ def make_class(pv, style, meta='none'):
       user_dicts[-1][2].append(n)
       ns[n] = fstruct.field(pytree_node=b, metadata=m)
   kw = {} if pv['frozen'] else {'frozen': False}
-  if style == 'pytreenode':
+  # class styles (all supported by the unchanged code; PyTreeNode + slots is rejected by dataclasses itself and not generated)
+  if style in ('slots', 'slots_kw', 'sub_slots'):
+    kw['slots'] = True  # dataclasses builds a NEW class object: the one that must be registered as a pytree
+  if style in ('kw_only', 'slots_kw', 'pytreenode_kw'):
+    kw['kw_only'] = True
+  if style == 'slots' and pv['frozen']:
+    kw['frozen'] = True  # explicit frozen=True variant
+  if style in ('pytreenode', 'pytreenode_kw'):
     cls = types.new_class(pv['cls'], (fstruct.PyTreeNode,), kw, lambda d: d.update(ns))
+  elif style == 'sub_slots':
+    # a slots=True subclass of an ordinary struct dataclass that declares the first field
+    n0 = pv['fs'][0][0]
+    bns = {'__annotations__': {n0: typing.Any}}
+    if n0 in ns:
+      bns[n0] = ns.pop(n0)
+    ns['__annotations__'] = {n: t for n, t in ns['__annotations__'].items() if n != n0}
+    parent = fstruct.dataclass(**({} if pv['frozen'] else {'frozen': False}))(type(pv['cls'] + '_base', (), bns))
+    cls = fstruct.dataclass(**kw)(type(pv['cls'], (parent,), ns))
   else:
     base = type(pv['cls'], (), ns)
     cls = fstruct.dataclass(base, **kw) if style == 'decorator' else fstruct.dataclass(**kw)(base)
@@ -1099,6 +1115,8 @@ def struct_case(ctx, drv, case, heavy):
     bad.append(('struct-replace-mutates', f'replace changed the original instance {json.dumps(pv)}'))
   # setattr / delattr
   an, av = case['set']
+  if 'slots' in style and an not in names:
+    an = names[0]  # a slots class has no __dict__: an unknown attribute is an AttributeError whatever `frozen` says
   r = s_call(lambda: (setattr(x, an, av), to_pv(x))[1])
   reqs.append(('s.setattr', [pv, an, av]))
   checks.append(('same', r))
@@ -1251,7 +1269,7 @@ def gen_struct_case(rng):
   return {
     'kind': 'struct',
     'pv': pv,
-    'style': rng.choice(['decorator', 'decorator_kw', 'pytreenode']),
+    'style': rng.choice(['decorator', 'decorator_kw', 'pytreenode', 'slots', 'slots', 'slots_kw', 'kw_only', 'sub_slots', 'pytreenode_kw']),
     'meta': rng.choice(['none', 'none', 'fresh', 'shared', 'shared', 'stale', 'shared_stale']),
     'ups': ups,
     'k': rng.randrange(-3, 4),
